@@ -64,9 +64,9 @@ plugin "beancount.plugins.auto_accounts"
 
 2020-02-03 balance Assets:Bank:Checking 407.50 USD
 
-2020-02-05 note Assets:Bank:Checking "called the bank"
+2020-02-05 note Assets:Bank:Checking "called the bank" #food ^link1
 2020-02-06 event "location" "Paris"
-2020-02-07 document Assets:Bank:Checking "/tmp/statement.pdf"
+2020-02-07 document Assets:Bank:Checking "/tmp/statement.pdf" #food ^link9
 2020-02-10 price HOOL 90.00 USD
 
 2020-02-15 * "Bob Bistro" "dinner" #food
